@@ -92,7 +92,7 @@ def gen_eval(rng, thorough):
         prf.append([rng.choice([i for i in range(12, 16)]),
                     [[gen_pose(rng, n_nodes, 2, R, 0, shape="free"), F(1, 2)]]])    # unpaired prediction frame
     rng.shuffle(prf)
-    defaults = rng.random() < 0.5
+    defaults = rng.random() < 0.4
     if defaults:
         mthrs = rthrs = pthrs = None
     else:
@@ -127,6 +127,8 @@ class Impl:
         import numpy as np
         import sleap_io as sio
         from sleap_nn import evaluation as ev
+        from loguru import logger
+        logger.disable("sleap_nn")                     # "Empty Frame Pairs" is logged at ERROR level
         self.np, self.sio, self.ev = np, sio, ev
         self.labels = sio.load_slp(str(core.REPO / "tests/assets/minimal_instance.pkg.slp"))
         self.video = self.labels.video
@@ -184,7 +186,10 @@ class Impl:
         return out
 
     def thresholds(self, c):
-        return (c["mthrs"] or self.def_m, c["rthrs"] or self.def_r, c["pthrs"] or self.def_p)
+        """The thresholds as the exact rationals of the float64 values the implementation receives."""
+        fl = lambda l: [F(float(x)) for x in l]
+        return (fl(c["mthrs"]) if c["mthrs"] else self.def_m, fl(c["rthrs"]) if c["rthrs"] else self.def_r,
+                fl(c["pthrs"]) if c["pthrs"] else self.def_p)
 
     def run(self, c):
         """-> dict of plain python values | {'raises': kind}."""
@@ -274,12 +279,14 @@ def nanf(x):
 
 
 def cmp_voc(mv, iv, n_r, exact_scores, what):
-    """model voc (parsed) vs impl voc dict."""
+    """model voc (parsed) vs impl voc dict.  The model renders, per match threshold, the precision
+    envelope, the searchsorted indices and the recall; precisions = env[inds] (0 past the end) and
+    the means AP / mAP / mAR (Metrics.vr_ap, voc_map, voc_mar = qmean) are taken here, exactly."""
     if mv is None:
         return None if iv == "zeros" else f"{what}: model has no positive pair, impl {str(iv)[:80]}"
     if not isinstance(iv, dict):
         return f"{what}: impl returned {iv}, model a table"
-    (scores, rows), (mAP, mAR) = mv
+    scores, rows = mv
     ms = [fq(s) for s in scores]
     if exact_scores:
         if [F(x) for x in iv["scores"]] != ms:
@@ -288,21 +295,27 @@ def cmp_voc(mv, iv, n_r, exact_scores, what):
         return f"{what}: sorted match scores differ"
     if len(rows) != len(iv["AP"]):
         return f"{what}: number of thresholds"
+    allp, allr = [], []
     for ti, row in enumerate(rows):
-        (env, inds), (rec, ap) = row
-        env = [float(fq(x)) for x in env]
-        prec = [env[i] if i < len(env) else 0.0 for i in inds]
+        (env, inds), rec = row
+        env = [fq(x) for x in env]
+        prec = [env[i] if i < len(env) else F(0) for i in inds]
         if len(prec) != n_r or len(iv["precisions"][ti]) != n_r:
             return f"{what}: number of recall thresholds"
         for ri, (a, b) in enumerate(zip(iv["precisions"][ti], prec)):
-            if not close(a, b):
-                return f"{what}: precision[{ti}][{ri}] impl {a} model {b}"
+            if not close(a, float(b)):
+                return f"{what}: precision[{ti}][{ri}] impl {a} model {float(b)}"
         if not close(iv["recalls"][ti], float(fq(rec))) or not close(iv["AR"][ti], float(fq(rec))):
             return f"{what}: recall[{ti}] impl {iv['recalls'][ti]} model {float(fq(rec))}"
-        if not close(iv["AP"][ti], float(fq(ap))):
-            return f"{what}: AP[{ti}] impl {iv['AP'][ti]} model {float(fq(ap))}"
-    if not close(iv["mAP"], float(fq(mAP))) or not close(iv["mAR"], float(fq(mAR))):
-        return f"{what}: mAP/mAR impl {iv['mAP']},{iv['mAR']} model {float(fq(mAP))},{float(fq(mAR))}"
+        ap = float(sum(prec) / len(prec)) if prec else float("nan")
+        if not close(iv["AP"][ti], ap):
+            return f"{what}: AP[{ti}] impl {iv['AP'][ti]} model {ap}"
+        allp += prec
+        allr.append(fq(rec))
+    mAP = float(sum(allp) / len(allp)) if allp else float("nan")
+    mAR = float(sum(allr) / len(allr)) if allr else float("nan")
+    if not close(iv["mAP"], mAP) or not close(iv["mAR"], mAR):
+        return f"{what}: mAP/mAR impl {iv['mAP']},{iv['mAR']} model {mAP},{mAR}"
     return None
 
 
@@ -347,15 +360,9 @@ def compare(c, m, out, impl, stats):
     if out.get("pckvoc") is not None:
         if pckvoc is None:
             return None if out["pckvoc"] == "zeros" else "pck_voc: model has no pair"
-        scores = [fq(s) for s in pckvoc[0][0]]
+        scores = [fq(s) for s in pckvoc[0]]
         if any(abs(float(s) - float(t)) < 1e-9 for s in scores for t in mthrs):
             stats["pckvoc_boundary_skipped"] += 1        # float mean of booleans sits on a threshold
-        elif len({float(x) for x in [p[1] for _, prs in c["prf"] for p in prs]}) < sum(len(prs) for _, prs in c["prf"]) \
-                and len(set(scores)) > 1:
-            # ties in the detection score: order of equal-score pairs is the same stable order, fine
-            r = cmp_voc(pckvoc, out["pckvoc"], len(rthrs), False, "pck_voc")
-            if r:
-                return r
         else:
             r = cmp_voc(pckvoc, out["pckvoc"], len(rthrs), False, "pck_voc")
             if r:
@@ -428,8 +435,6 @@ def oracle_eval(c, out, impl):
         n_gt = sum(len(g) for _, g in c["gtf"])
         if npairs != n_gt or out["fn"]:
             return f"perfect predictions: {npairs} pairs, {len(out['fn'])} false negatives for {n_gt} animals"
-        if any(g != p for g, p, _ in out["pairs"]) and not positions_aligned(c):
-            pass
         if abs(out["moks"] - 1) > 1e-12:
             return f"perfect predictions: mOKS = {out['moks']}"
         if any(not (math.isnan(x) or x == 0) for row in out["dists"] for x in row):
@@ -458,10 +463,6 @@ def same_instance(c, M, i, j):
             prs = [prs for k, prs in c["prf"] if k == idx][0]
             return prs[j][0] == gts[i]
     return False
-
-
-def positions_aligned(c):
-    return True
 
 
 def recalls_of(out, n):
